@@ -31,23 +31,24 @@ def normalise_literal(s):
 
 
 def digest1(g, as_sets):
+    """isomorphism-invariant digest (harness/iso.py: colour refinement with sha1 signatures - NOT rdflib.compare, whose canonical form
+    depends on the hash seed for some graphs) and the triples themselves, for the exact isomorphism test in the parent"""
     from rdflib import Literal, Graph
-    from rdflib.compare import to_canonical_graph
+    import iso
     h = Graph()
     for s, p, o in g:
         if isinstance(o, Literal):
             o = Literal(normalise_literal(str(o)) if as_sets else re.sub(r"τ\d+", "τ", str(o)))
         h.add((s, p, o))
-    c = to_canonical_graph(h)
-    lines = sorted(f"{s.n3()} {p.n3()} {o.n3()}" for s, p, o in c)
-    return hashlib.sha1("\n".join(lines).encode()).hexdigest()[:16], len(lines)
+    triples = iso.triples_of(h)
+    return iso.wl_digest(triples), len(triples), triples
 
 
 def digest(g):
-    """(digest with bracketed constraint lists as sets, digest with their printed order kept) and the size"""
-    a, n = digest1(g, True)
-    b, _ = digest1(g, False)
-    return a + "/" + b, n
+    """(digest with bracketed constraint lists as sets, digest with their printed order kept), the size, and the triples (printed order kept)"""
+    a, n, _ = digest1(g, True)
+    b, _, triples = digest1(g, False)
+    return a + "/" + b, n, triples
 
 
 def main():
@@ -86,29 +87,29 @@ def main():
             try:
                 g = TransformationGraph(lang, with_canonical_types=True, with_transitive_closure=closure)
                 g.add_vocabulary()
-                d, n = digest(g)
+                d, n, tr = digest(g)
             except Exception as ex:  # noqa
-                d, n = "E:" + type(ex).__name__, 0
-            out.append({"what": f"lang{li}/vocabulary/closure={closure}", "digest": d, "n": n})
+                d, n, tr = "E:" + type(ex).__name__, 0, []
+            out.append({"what": f"lang{li}/vocabulary/closure={closure}", "digest": d, "n": n, "triples": tr})
         for k, t in enumerate(texts):
             try:
                 e = lang.parse(t, *[E.Source() for _ in range(ninputs)]); e.fix()
                 args = {name: (b == "T") for name, b in zip(GG.SWITCHES, bits[k])}
                 g = TransformationGraph(lang, **args)          # labels on (default)
                 g.add_expr(e, BNode())
-                d, n = digest(g)
+                d, n, tr = digest(g)
             except Exception as ex:  # noqa
-                d, n = "E:" + type(ex).__name__, 0
-            out.append({"what": f"lang{li}/expr/{t}/{bits[k]}", "digest": d, "n": n})
+                d, n, tr = "E:" + type(ex).__name__, 0, []
+            out.append({"what": f"lang{li}/expr/{t}/{bits[k]}", "digest": d, "n": n, "triples": tr})
         for k, wf in enumerate(wfs):
             try:
                 args = {name: (b == "T") for name, b in zip(GG.SWITCHES, bits[len(texts) + k])}
                 g = TransformationGraph(lang, **args)
                 g.add_workflow(W.make_dict(wf) if not unrelated_first else W.make_dict(wf, list(reversed(range(len(wf["apps"]))))))
-                d, n = digest(g)
+                d, n, tr = digest(g)
             except Exception as ex:  # noqa
-                d, n = "E:" + type(ex).__name__, 0
-            out.append({"what": f"lang{li}/workflow/{k}/{json.dumps(wf)}", "digest": d, "n": n})
+                d, n, tr = "E:" + type(ex).__name__, 0, []
+            out.append({"what": f"lang{li}/workflow/{k}/{json.dumps(wf)}", "digest": d, "n": n, "triples": tr})
     # a fixed language whose signatures print several bounds / constraints that differ only in the variable they are about
     try:
         from transforge.type import TypeOperator, TypeSchema
@@ -131,10 +132,10 @@ def main():
             junk2 = [object() for _ in range(random.Random(seed).randint(1, 3000))]
         g = TransformationGraph(plang, with_canonical_types=True)
         g.add_vocabulary()
-        d, n = digest(g)
+        d, n, tr = digest(g)
     except Exception as ex:  # noqa
-        d, n = "E:" + type(ex).__name__, 0
-    out.append({"what": "printlang/vocabulary", "digest": d, "n": n})
+        d, n, tr = "E:" + type(ex).__name__, 0, []
+    out.append({"what": "printlang/vocabulary", "digest": d, "n": n, "triples": tr})
     print(json.dumps(out))
 
 
